@@ -394,23 +394,102 @@ package spg
 //@   define reqok() = arrid(r.requiredSets) > old(alloc) && forall(int(j), trig(r.requiredSets[j]), 0 <= j && j < len(r.requiredSets) ==>
 //@                    r.requiredSets[j].s != nil && allocated(r.requiredSets[j].s))
 //@   modifies r.allowedSet, r.requiredSets
+//@   uses INA-def, MEETS-def, HITS-def, HITS-intro, NOREQ-def, ENUMOF-def
+//@   ghost SI, SJ, SF, SG
+//@   ghost AS (Array Str Bool)
+//@   ghost STR (Str)
+//@   call stringFromSet#1 ghost STR = res0
+//@   atreturn ghost AS = elems(alphabetSet)
+//@   call newReqSet#1 ghost SI[len(r.requiredSets)] = i
+//@   call newReqSet#1 ghost SJ[i] = len(r.requiredSets)
+//@   call newReqSet#1 ghost SF[len(r.requiredSets)] = 0
+//@   call newReqSet#2 ghost SF[len(r.requiredSets)] = f
+//@   call newReqSet#2 ghost SG[f] = len(r.requiredSets)
+//@   define RS0() = old(arr(r.RequireSets))
+//@   define rs0(k) = RS0()[idx(off(r.RequireSets), k)]
+//@   define cls(f) = ite(f == 1, cls_upper, ite(f == 2, cls_lower, ite(f == 4, cls_digits, ite(f == 8, cls_symbols, cls_ambiguous))))
+//@   define isflag(f) = f == 1 || f == 2 || f == 4 || f == 8 || f == 16
+//@   define src(j) = ite(SF[j] == 0, rs0(SI[j]), cls(SF[j]))
+//@   define nreq() = len(r.requiredSets)
+//@   define custom(j) = 0 <= SI[j] && SI[j] < len(r.RequireSets) && rs0(SI[j]) != "" && SJ[SI[j]] == j
+//@   define hb(x, f) = (f == 1 && bitset(x, 1)) || (f == 2 && bitset(x, 2)) || (f == 4 && bitset(x, 4)) || (f == 8 && bitset(x, 8)) || (f == 16 && bitset(x, 16))
+//@   define classy(j) = isflag(SF[j]) && hb(r.Require, SF[j]) && SG[SF[j]] == j
+//@   define X(c) = excluded(old(*r), c)
 //@   ensures [C02,C03,C15] fresh:   fresh(res) && fresh(r.requiredSets) && off(res) == 0
 //@   loop 1 invariant [C03] state:  same() && reqok()
+//@   loop 1 invariant [C03] cust:   nreq() <= it && forall(int(j), trig(r.requiredSets[j]), 0 <= j && j < nreq() ==> SF[j] == 0 && custom(j) && SI[j] < it)
+//@   loop 1 invariant [C03] cust-el: forall(int(j), str(c), trig(elems(r.requiredSets[j].s)[c]), 0 <= j && j < nreq() ==>
+//@        elems(r.requiredSets[j].s)[c] == incs(src(j), c))
+//@   loop 1 invariant [C03] cust-inv: forall(int(k), trig(SJ[k]), 0 <= k && k < it && rs0(k) != "" ==> 0 <= SJ[k] && SJ[k] < nreq() && SI[SJ[k]] == k)
 //@   loop 2 invariant [C03] state:  same() && reqok() && utf8ok(allowedChars) && utf8ok(excludedChars)
+//@   loop 2 invariant [C03] kinds-a: forall(int(j), trig(SF[j]), 0 <= j && j < nreq() && SF[j] == 0 ==> custom(j))
+//@   loop 2 invariant [C03] kinds-b: forall(int(j), trig(SF[j]), 0 <= j && j < nreq() && SF[j] != 0 ==> isflag(SF[j]) && visited(SF[j]))
+//@   loop 2 invariant [C03] kinds-c: forall(int(j), trig(SF[j]), 0 <= j && j < nreq() && SF[j] != 0 ==> hb(r.Require, SF[j]))
+//@   loop 2 invariant [C03] kinds-d: forall(int(j), trig(SF[j]), 0 <= j && j < nreq() && SF[j] != 0 ==> SG[SF[j]] == j)
+//@   loop 2 invariant [C03] sets-el: forall(int(j), str(c), trig(elems(r.requiredSets[j].s)[c]), 0 <= j && j < nreq() ==>
+//@        elems(r.requiredSets[j].s)[c] == incs(src(j), c))
+//@   loop 2 invariant [C03] cust-inv: forall(int(k), trig(SJ[k]), trig(rs0(k)), 0 <= k && k < len(r.RequireSets) && rs0(k) != "" ==> 0 <= SJ[k] && SJ[k] < nreq() && SI[SJ[k]] == k && SF[SJ[k]] == 0)
+//@   loop 2 invariant [C03] cls-inv: forall(int(f), trig(SG[f]), visited(f) && hb(r.Require, f) ==> 0 <= SG[f] && SG[f] < nreq() && SF[SG[f]] == f)
+//@   loop 2 invariant [C03] allowed-acc: forall(str(c), trig(incs(allowedChars, c)), incs(allowedChars, c) == (incs(r.AllowChars, c) ||
+//@        (visited(1) && bitset(r.Allow, 1) && incs(cls_upper, c)) || (visited(2) && bitset(r.Allow, 2) && incs(cls_lower, c)) ||
+//@        (visited(4) && bitset(r.Allow, 4) && incs(cls_digits, c)) || (visited(8) && bitset(r.Allow, 8) && incs(cls_symbols, c)) ||
+//@        (visited(16) && bitset(r.Allow, 16) && incs(cls_ambiguous, c))))
+//@   loop 2 invariant [C03] excluded-acc: forall(str(c), trig(incs(excludedChars, c)), incs(excludedChars, c) == (incs(r.ExcludeChars, c) ||
+//@        (visited(1) && bitset(r.Exclude, 1) && incs(cls_upper, c)) || (visited(2) && bitset(r.Exclude, 2) && incs(cls_lower, c)) ||
+//@        (visited(4) && bitset(r.Exclude, 4) && incs(cls_digits, c)) || (visited(8) && bitset(r.Exclude, 8) && incs(cls_symbols, c)) ||
+//@        (visited(16) && bitset(r.Exclude, 16) && incs(cls_ambiguous, c))))
+//@   define AC(c) = incs(r.AllowChars, c) || classIn(r.Allow, c)
 //@   loop 3 invariant [C03] state:  same() && reqok()
 //@   loop 3 invariant [C03] allowed: r.allowedSet != nil && allocated(r.allowedSet)
-//@   loop 3 invariant [C03] misc:   excludedSet != nil && len(r.requiredSets) == entry(len(r.requiredSets))
+//@   loop 3 invariant [C03] misc:   excludedSet != nil && len(r.requiredSets) == entry(len(r.requiredSets)) && 0 <= it && it <= nreq()
+//@   loop 3 invariant [C03] ex:     forall(str(c), trig(elems(excludedSet)[c]), elems(excludedSet)[c] == X(c))
+//@   loop 3 invariant [C03] done:   forall(int(j), str(c), trig(elems(r.requiredSets[j].s)[c]), 0 <= j && j < it ==>
+//@        elems(r.requiredSets[j].s)[c] == (incs(src(j), c) && !X(c)))
+//@   loop 3 invariant [C03] todo:   forall(int(j), str(c), trig(elems(r.requiredSets[j].s)[c]), it <= j && j < nreq() ==>
+//@        elems(r.requiredSets[j].s)[c] == incs(src(j), c))
+//@   loop 3 invariant [C03] allowed-sub: forall(str(c), trig(elems(r.allowedSet)[c]), elems(r.allowedSet)[c] ==> AC(c) && !X(c))
+//@   loop 3 invariant [C03] allowed-sup: forall(str(c), trig(incs(r.AllowChars, c)), trig(incs(cls_upper, c)), trig(incs(cls_lower, c)), trig(incs(cls_digits, c)), trig(incs(cls_symbols, c)), trig(incs(cls_ambiguous, c)), AC(c) && !X(c) ==> elems(r.allowedSet)[c] ||
+//@        exists(int(j), 0 <= j && j < it && elems(r.requiredSets[j].s)[c]))
+//@   define INA(c) = inA(pub(old(*r)), old(arr(r.RequireSets)), off(r.RequireSets), len(r.RequireSets), c)
+//@   lemma [C02,C03] as-def:   forall(str(c), trig(AS[c]), AS[c] == (elems(r.allowedSet)[c] || exists(int(j), 0 <= j && j < nreq() && elems(r.requiredSets[j].s)[c])))
+//@   lemma [C02,C03] as-allow: forall(str(c), trig(AS[c]), AC(c) && !X(c) ==> AS[c])
+//@   lemma [C02,C03] as-cust0: forall(int(k), str(c), trig(incs(rs0(k), c)), 0 <= k && k < len(r.RequireSets) && rs0(k) != "" && incs(rs0(k), c) && !X(c) ==>
+//@        elems(r.requiredSets[SJ[k]].s)[c])
+//@   lemma [C02,C03] as-cust:  forall(int(k), str(c), trig(incs(rs0(k), c)), 0 <= k && k < len(r.RequireSets) && rs0(k) != "" && incs(rs0(k), c) && !X(c) ==> AS[c])
+//@   define viaClass(b, c) = bitset(r.Require, b) && incs(cls(b), c) && !X(c) ==> elems(r.requiredSets[SG[b]].s)[c]
+//@   lemma [C02,C03] as-class0: forall(str(c), trig(incs(cls_upper, c)), trig(incs(cls_lower, c)), trig(incs(cls_digits, c)), trig(incs(cls_symbols, c)), trig(incs(cls_ambiguous, c)),
+//@        viaClass(1, c) && viaClass(2, c) && viaClass(4, c) && viaClass(8, c) && viaClass(16, c))
+//@   lemma [C02,C03] as-class: forall(str(c), trig(AS[c]), classIn(r.Require, c) && !X(c) ==> AS[c])
+//@   lemma [C02,C03] as-all:   forall(str(c), trig(INA(c)), INA(c) ==> AS[c])
+//@   lemma [C02,C03] as-str:   forall(str(c), trig(AS[c]), AS[c] ==> incs(STR, c))
+//@   lemma [C02,C03] as-pos:   forall(str(c), trig(incs(STR, c)), incs(STR, c) ==> 0 <= incsw(STR, c) && incsw(STR, c) < len(res) && res[incsw(STR, c)] == c)
+//@   lemma [C02,C03] as-enum:  forall(str(c), trig(AS[c]), AS[c] ==> exists(int(k), 0 <= k && k < len(res) && res[k] == c))
+//@   define R0() = pub(old(*r))
+//@   define MEETS(pw) = meets(pub(old(*r)), old(arr(r.RequireSets)), off(r.RequireSets), len(r.RequireSets), pw)
+//@   define ALLOK(pw) = forall(int(j), trig(r.requiredSets[j]), 0 <= j && j < len(r.requiredSets) ==> okreq(j, pw))
+//@   lemma [C02,C03] ok-cust: forall(int(k), str(pw), trig(hits(R0(), rs0(k), pw)), 0 <= k && k < len(r.RequireSets) && rs0(k) != "" ==>
+//@        (okreq(SJ[k], pw) == hits(R0(), rs0(k), pw)))
+//@   lemma [C02,C03] ok-class: forall(str(pw), trig(hits(R0(), cls_upper, pw)), bitset(r.Require, 1) ==> (okreq(SG[1], pw) == hits(R0(), cls_upper, pw))) &&
+//@        forall(str(pw), trig(hits(R0(), cls_lower, pw)), bitset(r.Require, 2) ==> (okreq(SG[2], pw) == hits(R0(), cls_lower, pw))) &&
+//@        forall(str(pw), trig(hits(R0(), cls_digits, pw)), bitset(r.Require, 4) ==> (okreq(SG[4], pw) == hits(R0(), cls_digits, pw))) &&
+//@        forall(str(pw), trig(hits(R0(), cls_symbols, pw)), bitset(r.Require, 8) ==> (okreq(SG[8], pw) == hits(R0(), cls_symbols, pw))) &&
+//@        forall(str(pw), trig(hits(R0(), cls_ambiguous, pw)), bitset(r.Require, 16) ==> (okreq(SG[16], pw) == hits(R0(), cls_ambiguous, pw)))
+//@   lemma [C02,C03] filter-if:   forall(str(pw), trig(MEETS(pw)), ALLOK(pw) ==> MEETS(pw))
+//@   lemma [C02,C03] filter-only: forall(str(pw), trig(MEETS(pw)), MEETS(pw) ==> ALLOK(pw))
+//@   ensures [C02,C03] filter: forall(str(pw), trig(MEETS(pw)), ALLOK(pw) == MEETS(pw))
+//@   define NOREQ() = noReq(pub(old(*r)), old(arr(r.RequireSets)), off(r.RequireSets), len(r.RequireSets))
+//@   define EMPTYALL() = forall(int(j), str(c), trig(elems(r.requiredSets[j].s)[c]), 0 <= j && j < len(r.requiredSets) ==> !elems(r.requiredSets[j].s)[c])
+//@   lemma [C07] nr-if:   EMPTYALL() ==> NOREQ()
+//@   lemma [C07] nr-only: NOREQ() ==> EMPTYALL()
+//@   ensures [C07] noreq: (forall(int(j), str(c), 0 <= j && j < len(r.requiredSets) ==> !elems(r.requiredSets[j].s)[c])) == NOREQ()
+//@   lemma [C03] enum:    len(res) >= 0 && enumOf(arr(res), off(res), len(res), pub(old(*r)), old(arr(r.RequireSets)), off(r.RequireSets), len(r.RequireSets))
+//@   ensures [C03] bounded:  len(res) <= 1114240 && len(res) == alphaSize(pub(old(*r)), old(arr(r.RequireSets)), off(r.RequireSets), len(r.RequireSets))
+//@   ensures [C02,C03] alphabet-in: forall(int(k), trig(res[k]), 0 <= k && k < len(res) ==> INA(res[k]))
+//@   ensures [C02,C03] alphabet-all: forall(str(c), trig(INA(c)), INA(c) ==> exists(int(k), 0 <= k && k < len(res) && res[k] == c))
 //@   ensures [C03,C13] sets:        r.allowedSet != nil && forall(int(j), trig(r.requiredSets[j]), 0 <= j && j < len(r.requiredSets) ==>
 //@        r.requiredSets[j].s != nil)
 //@   ensures [C02,C03] chars:       forall(int(k), trig(res[k]), 0 <= k && k < len(res) ==> clen(res[k]) == 1 && utf8ok(res[k]))
 //@   ensures [C02] nodup:           forall(int(i), int(j), trig(res[i], res[j]), 0 <= i && i < j && j < len(res) ==> res[i] != res[j])
-//@   trusted-ensures [C03] bounded:  len(res) <= 1114240 && len(res) == alphaSize(pub(old(*r)), old(arr(r.RequireSets)), off(r.RequireSets), len(r.RequireSets))
-//@   trusted-ensures [C07] noreq:    (forall(int(j), str(c), 0 <= j && j < len(r.requiredSets) ==> !elems(r.requiredSets[j].s)[c])) ==
-//@        noReq(pub(old(*r)), old(arr(r.RequireSets)), off(r.RequireSets), len(r.RequireSets))
-//@   trusted-ensures [C02,C03] alphabet: forall(str(c), (exists(int(k), 0 <= k && k < len(res) && res[k] == c)) ==
-//@        inA(pub(old(*r)), old(arr(r.RequireSets)), off(r.RequireSets), len(r.RequireSets), c))
-//@   trusted-ensures [C02,C03] filter: forall(str(pw), (forall(int(j), trig(r.requiredSets[j]), 0 <= j && j < len(r.requiredSets) ==> okreq(j, pw))) ==
-//@        meets(pub(old(*r)), old(arr(r.RequireSets)), off(r.RequireSets), len(r.RequireSets), pw))
 
 //@ func (CharRecipe).entropyWithRequired
 //@   trusted
